@@ -680,7 +680,7 @@ def run(ctx):
                         cfg['ptimeout'] = 5 if n % 2 else 12
                     lts.append((cfg, expand_lts(letters, skind)))
                     n += 1
-    lts += [random_lts_case(ctx.rng) for _ in range({0: 3000, 1: 9000, 2: 25000}[level])]
+    lts += [random_lts_case(ctx.rng) for _ in range({0: 3000, 1: 9000, 2: 20000}[level])]
     if not res.failed:
         evaluate(ctx, lts, res, 'lifecycle')
     res['scopes']['lifecycle'] = {'scopes': [[a, m] for a, m in scopes], 'cases': len(lts)}
@@ -712,7 +712,7 @@ def run(ctx):
         'full_alphabets': [RPC_STEPS_FULL, MSG_STEPS_FULL],
         'full_alphabet_max_len': {0: 1, 1: 0, 2: 2}[level],
         'faults': FAULTS, 'runs': len(jobs)}
-    rnd = random_crash_cases(ctx.rng, {0: 5000, 1: 12000, 2: 90000}[level], 8 if level == 2 else 6)
+    rnd = random_crash_cases(ctx.rng, {0: 5000, 1: 12000, 2: 70000}[level], 8 if level == 2 else 6)
     if not res.failed:
         evaluate(ctx, rnd, res, 'crashpoint_random')
     res['scopes']['crashpoint_random'] = len(rnd)
